@@ -78,7 +78,20 @@ type World struct {
 	halted          string
 	events          []string // all events emitted so far (type and attributes, in order), when recordEvents is set
 	focus           string // "" = all messages evenly; "dispute" = histories directed at dispute rounds, votes, execution and claims
+
+	// optional knobs, used by the restart driver of C01 only (c01_restart_test.go).  All nil / zero for every other
+	// driver: their behaviour and random streams are unchanged (no knob draws from w.r).
+	hookBlockStart func()                             // first thing in beginBlock (a block boundary)
+	hookBlockEnd   func()                             // last thing in endBlock
+	hookOp         func(opResult)                     // after every delivered message and every Begin/EndBlock
+	rollback       func(name string, signer int) bool // true: the message ran successfully on a cache context that is then discarded (result 4)
+	privBias       int                                // > 0: one generated operation in privBias is a privileged (governance-style) message
+	kr             *rand.Rand                         // random stream of the knobs
+	staleRouters   []interface{}                      // routers replaced by restarts (for the census of the restart driver)
 }
+
+// worldInit, when set, configures every new World at the end of newWorld (restart driver of C01)
+var worldInit func(*World)
 
 const loyaPerTRB = 1_000_000
 
@@ -191,6 +204,9 @@ func newWorld(t *testing.T, r *rand.Rand, nVals, nPlain int) *World {
 		}
 		w.reporters[i] = true
 	}
+	if worldInit != nil {
+		worldInit(w)
+	}
 	return w
 }
 
@@ -234,6 +250,12 @@ func (w *World) deliver(name string, signer int, params []*big.Int, f func(ctx s
 			}
 			return
 		}
+		if w.rollback != nil && w.rollback(name, signer) {
+			// what x/gov does with the earlier messages of a proposal whose later message fails, and baseapp with the
+			// earlier messages of such a transaction: executed, then the cache context (state and events) is dropped
+			res.result = 4
+			return
+		}
 		write()
 	}()
 	// a dispute message: was the dispute it opened / paid into fully funded afterwards?  (the fee paid so far covers
@@ -271,6 +293,9 @@ func (w *World) deliver(name string, signer int, params []*big.Int, f func(ctx s
 		}
 		res.params = append(append([]*big.Int{}, res.params...), bi(funded), credited, slashNow)
 	}
+	if w.hookOp != nil {
+		w.hookOp(res)
+	}
 	return res
 }
 
@@ -299,6 +324,9 @@ func (w *World) blockFn(name string, params []*big.Int, fns ...func(ctx sdk.Cont
 }
 
 func (w *World) beginBlock(gap time.Duration) opResult {
+	if w.hookBlockStart != nil {
+		w.hookBlockStart()
+	}
 	w.height++
 	prev := w.now
 	w.now = w.now.Add(gap)
@@ -354,6 +382,9 @@ func (w *World) beginBlock(gap time.Duration) opResult {
 			}
 		}()
 	}
+	if w.hookOp != nil {
+		w.hookOp(res)
+	}
 	return res
 }
 
@@ -384,6 +415,12 @@ func (w *World) endBlock() opResult {
 			}
 			w.events = append(w.events, line)
 		}
+	}
+	if w.hookOp != nil {
+		w.hookOp(res)
+	}
+	if w.hookBlockEnd != nil {
+		w.hookBlockEnd()
 	}
 	return res
 }
@@ -611,6 +648,9 @@ func (w *World) genOp() genOp {
 		default:
 			return w.genClaimOp(a)
 		}
+	}
+	if w.privBias > 0 && w.kr.Intn(w.privBias) == 0 {
+		return w.genPrivileged(a)
 	}
 	switch r.Intn(30) {
 	case 0, 1, 2:
@@ -1121,6 +1161,9 @@ func (w *World) genPrivileged(a int) genOp {
 	r := w.r
 	auth := w.authority
 	byAuthority := r.Intn(2) == 0
+	if w.privBias > 0 && !byAuthority && w.kr.Intn(2) == 0 {
+		byAuthority = true // (knob of the restart driver: three quarters of the privileged messages come from the authority)
+	}
 	signer := -3 // governance
 	if !byAuthority {
 		auth = pick(r, w.accts[a].String(), authtypes.NewModuleAddress("oracle").String(), strings.ToUpper(w.authority), w.authority+" ")
